@@ -95,8 +95,8 @@ func (c *Ctx) binop(op token.Token, t types.Type, x, y string, yT types.Type) (r
 		case token.ADD:
 			r := c.freshSort("cat", "Str")
 			c.assume(eq(sx("gstr_len", r), sx("+", sx("gstr_len", x), sx("gstr_len", y))))
-			c.assume(fmt.Sprintf("(forall ((i Int)) (! (=> (and (<= 0 i) (< i (gstr_len %s))) (= (gstr_at %s i) (gstr_at %s i))) :pattern ((gstr_at %s i))))", x, r, x, r))
-			c.assume(fmt.Sprintf("(forall ((i Int)) (! (=> (and (<= 0 i) (< i (gstr_len %s))) (= (gstr_at %s (+ (gstr_len %s) i)) (gstr_at %s i))) :pattern ((gstr_at %s i))))", y, r, x, y, y))
+			c.assumeDef(fmt.Sprintf("(forall ((i Int)) (! (=> (and (<= 0 i) (< i (gstr_len %s))) (= (gstr_at %s i) (gstr_at %s i))) :pattern ((gstr_at %s i))))", x, r, x, r))
+			c.assumeDef(fmt.Sprintf("(forall ((i Int)) (! (=> (and (<= 0 i) (< i (gstr_len %s))) (= (gstr_at %s (+ (gstr_len %s) i)) (gstr_at %s i))) :pattern ((gstr_at %s i))))", y, r, x, y, y))
 			return r, ""
 		}
 		panic(unsupported("string op " + op.String()))
